@@ -585,4 +585,9 @@ def main():
 
 
 if __name__ == "__main__":
-    vlib.main(main)
+    def _main_with_config():
+        import conf
+        rc = main()
+        n = conf.check("C20")      # defaults the daemon is built with vs. Config.tla
+        return 1 if n else rc
+    vlib.main(_main_with_config)
